@@ -25,6 +25,7 @@ func init() {
 		}
 		Parallel(n, func(i int) { subdecRun(druns[i], c.SubRng(5000+i), i%3 != 2) })
 		c.AddStat("decorator_conformance_runs", n)
+		subdecReplayAll(c, TD)
 		return gcDrive(c, gcScenariosC07(c))
 	}
 	Registry["C11"] = func(c *Ctx) error { return gcDrive(c, gcScenariosC11(c)) }
